@@ -99,6 +99,8 @@ def _has_q(t, _memo={}):
 def _solver(hyps, goals_negated, timeout, seed=None):
     s = z3.Solver()
     s.set('timeout', timeout)
+    if seed is None:
+        seed = _CFG.get('seed')
     if os.environ.get('PYVC_MBQI', '0') == '0':
         # proofs only need E-matching; model-based quantifier instantiation is where z3 loops on our VCs, and
         # counter-models are obtained from the quantifier-free relaxation anyway
@@ -345,16 +347,20 @@ def _worker(conn):
             return
         if k is None:
             return
-        idxs, dio = k
-        if not dio:
+        idxs, stage = k
+        if stage >= 2:
             z3.set_param('lp.dio', False)
+        if stage >= 3:
+            _CFG['seed'] = (7, 23)[min(stage - 3, 1)]
         conn.send(('done', _batch(idxs)))
+        return          # one batch per process: every batch starts from the parent's z3 state (deterministic)
 
 
 def _run_pool(work, procs, hard_limit_s):
     from multiprocessing.connection import wait
     ctx = mp.get_context('fork')
-    pending = [(idxs, True) for idxs in work]
+    # retry stages after a hang / crash: 0 batch, 1 members one by one, 2 without lp.dio, 3-4 other random seeds
+    pending = [(idxs, 0) for idxs in work]
     pending.reverse()
     workers = {}           # conn -> [process, (idxs, dio) | None, start time]
     results, candidates = {}, {}
@@ -373,6 +379,8 @@ def _run_pool(work, procs, hard_limit_s):
         spawn()
     try:
         while pending or any(w[1] is not None for w in workers.values()):
+            while pending and len(workers) < procs:
+                spawn()
             for conn, w in list(workers.items()):
                 if w[1] is None and pending:
                     w[1], w[2] = pending.pop(), time.time()
@@ -391,15 +399,23 @@ def _run_pool(work, procs, hard_limit_s):
                 if msg[0] == 'candidate':
                     candidates[msg[1]] = msg[2]
                     # the full query now most likely is satisfiable (where z3 may never return): tighter deadline
-                    w[2] = min(w[2], time.time() + max(20.0, _CFG['timeout'] / 1000.0) - hard_limit_s)
+                    w[2] = min(w[2], time.time() + max(30.0, 2.0 * _CFG['timeout'] / 1000.0) - hard_limit_s)
                     continue
                 for i, res in msg[1]:
                     results[i] = res
                 w[1] = None
+                try:
+                    conn.close()
+                except Exception:
+                    pass
+                w[0].join(timeout=0.05)
+                del workers[conn]
+                if pending:
+                    spawn()
             now = time.time()
             for conn, w in list(workers.items()):
                 if w[1] is not None and now - w[2] > hard_limit_s:
-                    idxs, dio = w[1]
+                    idxs, stage = w[1]
                     try:
                         w[0].kill()
                     except Exception:
@@ -412,13 +428,13 @@ def _run_pool(work, procs, hard_limit_s):
                     for i in [i for i in todo if i in candidates]:
                         give_up(i, 'solver did not return on the full query; a candidate counter-model exists')
                     todo = [i for i in todo if i not in candidates]
-                    if dio and len(todo) > 1:
-                        pending.extend(([i], True) for i in todo)      # retry the batch's members one by one
-                    elif dio and todo:
-                        pending.append((todo, False))                  # then once without the Diophantine module
+                    if stage == 0 and len(todo) > 1:
+                        pending.extend(([i], 1) for i in todo)         # retry the batch's members one by one
+                    elif todo and stage < 4:
+                        pending.append((todo, max(2, stage + 1)))      # without the Diophantine module, other seeds
                     else:
                         for i in todo:
-                            give_up(i, 'hard wall-clock limit: solver did not return')
+                            give_up(i, 'hard wall-clock limit: solver did not return (5 attempts)')
                     spawn()
     finally:
         for conn, w in workers.items():
